@@ -920,14 +920,32 @@ def obs_c07(c: Ctx):
                 indep = core.project(c.b)["st"] == before and all(nd.meta is None or "verif" not in nd.meta for nd in tree)
             except Exception:  # noqa: BLE001
                 indep = False
+            # a tree the LIBRARY made for the copy works like the source tree: its nodes are found through their data
+            # objects, and data added later gets the id the source tree would give it (id callback / hash)
+            like = True
+            if via in ("tree.copy", "node.copy", "node.copy(add_self=False)"):
+                try:
+                    like = all((nd.data in t) and any(x is nd for x in t.find_all(nd.data)) for nd in t
+                               if nd.data_id == fl.default_real_did(fl.data_index(nd.data)))    # (not under an explicit id)
+                    added = t.find_first(fl.data(8))
+                    like = like and added is not None and added.data_id == fl.default_real_did(8)
+                except Exception:  # noqa: BLE001
+                    like = False
             return {"forest": forest, "faithful": faithful, "kinds": kinds, "selfdup": selfdup, "src_same": same,
-                    "cls": isinstance(t, type(tree)), "independent": indep}
+                    "cls": isinstance(t, type(tree)), "independent": indep, "like_source": like}
         out.append({"q": "copy", "a": {"p": p, "self": self_, "via": via}, "r": call(make, norm)})
 
     observe(lambda: tree.copy(), st["top"], "tree.copy", 0, False)
 
+    def new_target(cls=None):
+        """a fresh tree configured like the source (id callback, forward_attrs), optionally of a subclass"""
+        t2 = fl.new_tree("target")
+        if cls is not None and cls is not type(t2):
+            t2.__class__ = cls        # (SubTree adds nothing but its name)
+        return t2
+
     def copy_to_new(cls, deep=True):
-        t2 = cls("target")
+        t2 = new_target(cls)
         tree.copy_to(t2, deep=deep)
         return t2
     if n > 0:   # (an empty source is refused with ValueError; the documentation is silent)
@@ -939,8 +957,8 @@ def obs_c07(c: Ctx):
         if st["kids"][i - 1]:
             observe(lambda nd=nd: nd.copy(add_self=False), st["kids"][i - 1], "node.copy(add_self=False)", i, False)
 
-        def node_copy_to(nd=nd, cls=type(tree)):
-            t2 = cls("target")
+        def node_copy_to(nd=nd):
+            t2 = new_target()
             nd.copy_to(t2, deep=True)
             return t2
         observe(node_copy_to, [i], "node.copy_to(deep)", i, True)
@@ -954,7 +972,7 @@ def obs_c07(c: Ctx):
                 g = deeper[0]
 
                 def children_into_populated(nd=nd, g=g):
-                    t2 = type(tree)("target")
+                    t2 = new_target()
                     gn = c.b.nodes[g]
                     kw = {"kind": gn.kind} if fl.typed else {}
                     pre = t2.add(gn.data, data_id=gn.data_id, **kw)
